@@ -150,13 +150,25 @@ Definition ident_ok (strict : bool) (s : str) : bool :=
 
 (* ------------------------------------------------------------------ 3. converters *)
 
-Inductive value := VStr (s : str) | VInt (z : Z).
+(* VOther: the canonical text of a value the model does not compute itself (float, UUID,
+   datetime), as supplied by the converter oracle *)
+Inductive value := VStr (s : str) | VInt (z : Z) | VOther (s : str).
 Inductive frag := FStr (s : str) | FSegs (l : list str).
+
+(* float(value) as an oracle: an exact rational (den > 0), an infinity, or nan; with repr() *)
+Inductive fparse := FNum (num den : Z) (repr : str) | FInf (neg : bool) (repr : str) | FNan (repr : str).
 
 (* a converter instance, as far as its convert() is modelled *)
 Inductive convspec :=
 | CInt (nd mn mx : option Z)      (* IntConverter(num_digits, min, max) *)
-| CPath.                          (* PathConverter *)
+| CPath                           (* PathConverter *)
+| CFloat (mn mx : option (Z * Z)) (finite : bool) (tbl : list (str * fparse))
+                                  (* FloatConverter(min, max, finite): bounds as exact rationals;
+                                     [tbl] is the graph of float() on the strings that can occur
+                                     (absent = ValueError) *)
+| COpaque (tbl : list (str * value)).
+                                  (* any other converter (uuid, dt, custom): the graph of its
+                                     convert() on the strings that can occur (absent = None) *)
 
 (* eval('Klass(argstr)') : unknown name / raises / instance *)
 Inductive cres := CUnknown | CFail | COk (c : convspec).
@@ -197,6 +209,42 @@ Definition int_convert (nd mn mx : option Z) (s : str) : option Z :=
          else Some z
        end.
 
+Fixpoint tbl_get {A} (t : list (str * A)) (k : str) : option A :=
+  match t with
+  | [] => None
+  | (k', v) :: tl => if str_eqb k k' then Some v else tbl_get tl k
+  end.
+
+(* value < bound / value > bound as Python compares floats (nan compares false) *)
+Definition f_lt (x : fparse) (b : Z * Z) : bool :=
+  match x with
+  | FNum n d _ => Z.ltb (n * snd b) (fst b * d)
+  | FInf neg _ => neg
+  | FNan _ => false
+  end.
+Definition f_gt (x : fparse) (b : Z * Z) : bool :=
+  match x with
+  | FNum n d _ => Z.ltb (fst b * d) (n * snd b)
+  | FInf neg _ => negb neg
+  | FNan _ => false
+  end.
+Definition f_repr (x : fparse) : str :=
+  match x with FNum _ _ r => r | FInf _ r => r | FNan r => r end.
+Definition f_finite (x : fparse) : bool := match x with FNum _ _ _ => true | _ => false end.
+
+(* FloatConverter.convert *)
+Definition float_convert (mn mx : option (Z * Z)) (finite : bool) (tbl : list (str * fparse)) (s : str)
+  : option value :=
+  if strip_changes s then None
+  else match tbl_get tbl s with
+       | None => None                                            (* float() raised ValueError *)
+       | Some x =>
+         if finite && negb (f_finite x) then None
+         else if match mn with Some b => f_lt x b | None => false end then None
+         else if match mx with Some b => f_gt x b | None => false end then None
+         else Some (VOther (f_repr x))
+       end.
+
 (* '/'.join(x): of a list of segments, or (str argument) of its characters *)
 Definition conv_apply (c : convspec) (f : frag) : option value :=
   match c, f with
@@ -204,6 +252,10 @@ Definition conv_apply (c : convspec) (f : frag) : option value :=
   | CInt _ _ _, FSegs _ => None                      (* unreachable for well-formed trees *)
   | CPath, FSegs l => Some (VStr (join_chr 47 l))
   | CPath, FStr s => Some (VStr (join_chr 47 (map (fun c => [c]) s)))
+  | CFloat mn mx fin tbl, FStr s => float_convert mn mx fin tbl s
+  | CFloat _ _ _ _, FSegs _ => None
+  | COpaque tbl, FStr s => tbl_get tbl s
+  | COpaque _, FSegs _ => None
   end.
 
 (* ------------------------------------------------------------------ 4. the tree *)
